@@ -150,6 +150,7 @@ func runC19(c *Ctx) {
 		"C19.1 in every merge-walk that computes a replication round, what is scheduled for deletion comes from the local input and what is scheduled for upsert from the remote input",
 		"C19.3 both tails of the walk are drained: each result list is appended to in the merge loop and in a tail loop of its own",
 		"C19.2 within a round the deletions are applied before the upserts",
+		"C19.7 a sorted merge walk sorts both of its inputs itself, with its own comparator, before walking them",
 		"C19.4 nothing is applied when nothing differs: the apply steps lie below len(deletions) > 0 / len(updates) > 0",
 		"C19.5 the remote index is returned (advanced) only on paths where no apply step reported an error",
 		"C19.6 cursor discipline: a cursor of the walk advances only past an element that was matched, scheduled, or skipped for having an empty ID of its own",
@@ -259,6 +260,160 @@ func checkMergeWalk(c *Ctx, f *ssa.Function) {
 	}
 	// C19.6 cursor discipline
 	checkCursors(c, f)
+	// C19.7 both inputs of the walk are sorted (by this function) before the walk starts
+	checkBothSidesSorted(c, f)
+}
+
+// C19.7
+func checkBothSidesSorted(c *Ctx, f *ssa.Function) {
+	p, r := c.P, c.R
+	name := core.FuncName(f)
+	// the slices the walk indexes inside its loops
+	hdrsAll := loopHeaders(f)
+	var walked []ssa.Value
+	seenW := map[ssa.Value]bool{}
+	for _, b := range f.Blocks {
+		if innermostLoop(f, hdrsAll, b) == nil {
+			continue
+		}
+		for _, in := range b.Instrs {
+			var x ssa.Value
+			switch v := in.(type) {
+			case *ssa.IndexAddr:
+				x = v.X
+			case *ssa.Index:
+				x = v.X
+			}
+			if x == nil {
+				continue
+			}
+			if _, isSlice := x.Type().Underlying().(*types.Slice); !isSlice {
+				continue
+			}
+			if !seenW[x] {
+				seenW[x] = true
+				walked = append(walked, x)
+			}
+		}
+	}
+	isSortCall := func(in ssa.Instruction) (args []ssa.Value, ok bool) {
+		ci, isCall := in.(ssa.CallInstruction)
+		if !isCall {
+			return nil, false
+		}
+		n := core.MethodNameOf(ci.Common())
+		if g := ci.Common().StaticCallee(); g != nil {
+			n = g.Name()
+		}
+		if !strings.Contains(strings.ToLower(n), "sort") && core.CalleePkgPath(ci.Common()) != "sort" {
+			return nil, false
+		}
+		return ci.Common().Args, true
+	}
+	if len(walked) >= 2 {
+		label := func(v ssa.Value) string {
+			if prm, ok := v.(*ssa.Parameter); ok {
+				return prm.Name()
+			}
+			if v.Name() != "" {
+				return shortExpr(v)
+			}
+			return "a slice"
+		}
+		mf := &core.MustFlow{F: f, Gen: func(in ssa.Instruction) []string {
+			args, ok := isSortCall(in)
+			if !ok {
+				return nil
+			}
+			var out []string
+			for _, a := range args {
+				if mi, ok := a.(*ssa.MakeInterface); ok {
+					a = mi.X
+				}
+				for i, w := range walked {
+					if a == w {
+						out = append(out, fmt.Sprint(i))
+					}
+				}
+			}
+			return out
+		}}
+		mf.Run()
+		sorted := map[int]bool{}
+		for h := range hdrsAll {
+			if st, ok := mf.At(h.Instrs[0]); ok {
+				for i := range walked {
+					if st[fmt.Sprint(i)] {
+						sorted[i] = true
+					}
+				}
+			}
+		}
+		var missing []string
+		for i, w := range walked {
+			if !sorted[i] {
+				missing = append(missing, label(w))
+			}
+		}
+		if len(missing) == 0 {
+			r.Hold("C19.7", name, p.FuncPos(f), fmt.Sprintf("all %d walked inputs are sorted here before the walk", len(walked)))
+		} else {
+			r.Violate("C19.7", name, p.FuncPos(f), "the merge walk compares the two inputs position by position but "+strings.Join(missing, ", ")+" is not sorted by this function first: the walk relies on the caller's order (the state store orders config entries case-insensitively, the comparator does not), so entries present on both sides are paired wrongly and come out as a deletion plus an upsert — an already equal secondary keeps writing")
+		}
+		return
+	}
+	// replicator-object form: one call sorts both sides (SortState) before the walk
+	var sortCall ssa.Instruction
+	for _, b := range f.Blocks {
+		for _, in := range b.Instrs {
+			if ci, ok := in.(ssa.CallInstruction); ok && strings.Contains(core.MethodNameOf(ci.Common()), "Sort") {
+				sortCall = in
+			}
+		}
+	}
+	if sortCall == nil {
+		r.Violate("C19.7", name, p.FuncPos(f), "the merge walk does not sort its inputs")
+		return
+	}
+	okAll := true
+	for h := range loopHeaders(f) {
+		if !sortCall.Block().Dominates(h) {
+			okAll = false
+		}
+	}
+	// the replicator's sort really covers both sides
+	if ci, ok := sortCall.(ssa.CallInstruction); ok && ci.Common().IsInvoke() && ci.Common().Method.Name() == "SortState" {
+		for _, g := range p.SrcFuncs("agent/consul") {
+			if g.Name() != "SortState" || g.Signature.Recv() == nil {
+				continue
+			}
+			sides := map[string]bool{}
+			for _, b := range g.Blocks {
+				for _, in := range b.Instrs {
+					if c2, ok := in.(ssa.CallInstruction); ok && (strings.Contains(core.MethodNameOf(c2.Common()), "Sort") || core.CalleePkgPath(c2.Common()) == "sort") {
+						for _, a := range c2.Common().Args {
+							if mi, ok := a.(*ssa.MakeInterface); ok {
+								a = mi.X
+							}
+							if lf := core.AccessOf(a).LastField(); lf != "" {
+								sides[lf] = true
+							}
+						}
+					}
+				}
+			}
+			if sides["local"] && sides["remote"] {
+				r.Hold("C19.7", core.FuncName(g), p.FuncPos(g), "sorts the local and the remote list")
+			} else {
+				r.Violate("C19.7", core.FuncName(g), p.FuncPos(g), fmt.Sprintf("SortState does not sort both lists (sorted: %v): the merge walk pairs items wrongly", sides))
+			}
+		}
+	}
+	if okAll {
+		r.Hold("C19.7", name, p.FuncPos(f), "the replicator sorts both sides before the walk")
+	} else {
+		r.Violate("C19.7", name, p.FuncPos(f), "the sort does not precede the walk on every path")
+	}
 }
 
 // hasTwoCursorLoop: some loop header carries two integer cursors, each advanced by one somewhere.
